@@ -1118,6 +1118,8 @@ impl<T: TraceStorage> ChainProcess<T> {
             let progress = progress_inner;
 
             let mut sample = move || {
+                #[cfg(nuts_rs_verif)]
+                crate::verif::sched(crate::verif::sched_point::CHAIN_START, chain_id, 0);
                 let logp = model
                     .math(&mut rng)
                     .context("Failed to create model density")?;
@@ -1127,6 +1129,8 @@ impl<T: TraceStorage> ChainProcess<T> {
 
                 progress.lock().expect("Poisoned mutex").started = true;
 
+                #[cfg(nuts_rs_verif)]
+                crate::verif::sched(crate::verif::sched_point::CHAIN_BEFORE_INIT, chain_id, 0);
                 let mut initval = vec![0f64; dim];
                 // TODO maxtries
                 let mut error = None;
@@ -1151,6 +1155,12 @@ impl<T: TraceStorage> ChainProcess<T> {
                 let mut msg = stop_marker_rx.try_recv();
                 let mut draw = 0;
                 loop {
+                    #[cfg(nuts_rs_verif)]
+                    crate::verif::sched(
+                        crate::verif::sched_point::CHAIN_LOOP_TOP,
+                        chain_id,
+                        draw as u64,
+                    );
                     match msg {
                         // The remote end is dead
                         Err(TryRecvError::Disconnected) => {
@@ -1158,14 +1168,32 @@ impl<T: TraceStorage> ChainProcess<T> {
                         }
                         Err(TryRecvError::Empty) => {}
                         Ok(ChainCommand::Pause) => {
+                            #[cfg(nuts_rs_verif)]
+                            crate::verif::sched(
+                                crate::verif::sched_point::CHAIN_PAUSED,
+                                chain_id,
+                                draw as u64,
+                            );
                             msg = stop_marker_rx.recv().map_err(|e| e.into());
                             continue;
                         }
                         Ok(ChainCommand::Resume) => {}
                     }
 
+                    #[cfg(nuts_rs_verif)]
+                    crate::verif::sched(
+                        crate::verif::sched_point::CHAIN_BEFORE_DRAW,
+                        chain_id,
+                        draw as u64,
+                    );
                     let now = Instant::now();
                     let (_point, mut draw_data, mut stats, info) = sampler.expanded_draw().unwrap();
+                    #[cfg(nuts_rs_verif)]
+                    crate::verif::sched(
+                        crate::verif::sched_point::CHAIN_AFTER_DRAW,
+                        chain_id,
+                        draw as u64,
+                    );
 
                     let mut guard = chain_trace
                         .lock()
@@ -1190,16 +1218,30 @@ impl<T: TraceStorage> ChainProcess<T> {
                     )?;
 
                     draw += 1;
+                    #[cfg(nuts_rs_verif)]
+                    crate::verif::sched(
+                        crate::verif::sched_point::CHAIN_AFTER_RECORD,
+                        chain_id,
+                        draw as u64,
+                    );
                     if draw == draws {
                         break;
                     }
 
+                    #[cfg(nuts_rs_verif)]
+                    crate::verif::sched(
+                        crate::verif::sched_point::CHAIN_BEFORE_TRYRECV,
+                        chain_id,
+                        draw as u64,
+                    );
                     msg = stop_marker_rx.try_recv();
                 }
                 Ok(())
             };
 
             let result = sample();
+            #[cfg(nuts_rs_verif)]
+            crate::verif::sched(crate::verif::sched_point::CHAIN_EXIT, chain_id, 0);
 
             // We intentionally ignore errors here, because this means some other
             // chain already failed, and should have reported the error.
@@ -1362,6 +1404,12 @@ impl<F: Send + 'static> Sampler<F> {
                             progress_rate
                         });
 
+                        #[cfg(nuts_rs_verif)]
+                        crate::verif::sched(
+                            crate::verif::sched_point::CTRL_BEFORE_RECV,
+                            u64::MAX,
+                            0,
+                        );
                         // TODO return when all chains are done
                         match commands_rx.recv_timeout(timeout) {
                             Ok(SamplerCommand::Pause) => {
@@ -1370,6 +1418,12 @@ impl<F: Send + 'static> Sampler<F> {
                                     // We just want to ignore those threads.
                                     let _ = chain.pause();
                                 }
+                                #[cfg(nuts_rs_verif)]
+                                crate::verif::sched(
+                                    crate::verif::sched_point::CTRL_AFTER_PAUSE_FANOUT,
+                                    u64::MAX,
+                                    0,
+                                );
                                 if !is_paused {
                                     pause_start = Instant::now();
                                 }
@@ -1386,6 +1440,12 @@ impl<F: Send + 'static> Sampler<F> {
                                     // We just want to ignore those threads.
                                     let _ = chain.resume();
                                 }
+                                #[cfg(nuts_rs_verif)]
+                                crate::verif::sched(
+                                    crate::verif::sched_point::CTRL_AFTER_RESUME_FANOUT,
+                                    u64::MAX,
+                                    0,
+                                );
                                 pause_time += pause_start.elapsed();
                                 is_paused = false;
                                 responses_tx.send(SamplerResponse::Ok()).map_err(|e| {
@@ -1395,6 +1455,12 @@ impl<F: Send + 'static> Sampler<F> {
                                 })?;
                             }
                             Ok(SamplerCommand::Progress) => {
+                                #[cfg(nuts_rs_verif)]
+                                crate::verif::sched(
+                                    crate::verif::sched_point::CTRL_BEFORE_PROGRESS,
+                                    u64::MAX,
+                                    0,
+                                );
                                 let progress =
                                     chains.iter().map(|chain| chain.progress()).collect_vec();
                                 responses_tx.send(SamplerResponse::Progress(progress.into())).map_err(|e| {
@@ -1404,6 +1470,12 @@ impl<F: Send + 'static> Sampler<F> {
                                 })?;
                             }
                             Ok(SamplerCommand::Inspect) => {
+                                #[cfg(nuts_rs_verif)]
+                                crate::verif::sched(
+                                    crate::verif::sched_point::CTRL_BEFORE_INSPECT,
+                                    u64::MAX,
+                                    0,
+                                );
                                 let traces = chains
                                     .iter()
                                     .filter_map(|chain| {
@@ -1423,6 +1495,12 @@ impl<F: Send + 'static> Sampler<F> {
                                 })?;
                             }
                             Ok(SamplerCommand::Flush) => {
+                                #[cfg(nuts_rs_verif)]
+                                crate::verif::sched(
+                                    crate::verif::sched_point::CTRL_BEFORE_FLUSH,
+                                    u64::MAX,
+                                    0,
+                                );
                                 for chain in chains.iter() {
                                     chain.flush()?;
                                 }
@@ -1434,6 +1512,12 @@ impl<F: Send + 'static> Sampler<F> {
                             }
                             Err(RecvTimeoutError::Timeout) => {}
                             Err(RecvTimeoutError::Disconnected) => {
+                                #[cfg(nuts_rs_verif)]
+                                crate::verif::sched(
+                                    crate::verif::sched_point::CTRL_DISCONNECTED,
+                                    u64::MAX,
+                                    0,
+                                );
                                 if let Some(ProgressCallback { callback, .. }) = &mut callback {
                                     let progress =
                                         chains.iter().map(|chain| chain.progress()).collect_vec();
@@ -1450,6 +1534,8 @@ impl<F: Send + 'static> Sampler<F> {
                     }
                 };
                 let result: Result<()> = main_loop();
+                #[cfg(nuts_rs_verif)]
+                crate::verif::sched(crate::verif::sched_point::CTRL_FINALIZE, u64::MAX, 0);
                 // Run finalization even if something failed
                 let output = ChainProcess::finalize_many(trace, chains)?;
 
